@@ -59,6 +59,47 @@ Adapter("cutoffneighbors_particletype", "neighbors", "neighbors.calculate_neighb
         gen=_gen_producer("cutt"), outputs=_nl_outputs("cut"))
 
 
+def _gen_stub_weights(w, rng):
+    c = sorted(p for p, f in w.files.items() if f["kind"] == "nl" and f.get("nlkind") in ("cut", "nn") and f["snaps"] in
+               {e.tag.get("bundle") for e in w.pool.values() if e.kind == "snaps"})
+    if not c:
+        return None
+    p = rng.choice(c)
+    f = w.files[p]
+    return {"args": {"nl": p, "path": rng.choice(["w_stub_a.dat", "w_stub_b.dat"]), "seed": rng.randrange(1 << 30)},
+            "reads": {p: f["src"]}, "meta": {"snaps": f["snaps"], "N": f["N"], "of_src": f["src"]}}
+
+
+def _call_stub_weights(w, op, kw):
+    """A stub peer (another tool) writes bond weights for an existing neighbour list in the
+    documented layout: same ids and coordination numbers, one positive weight per neighbour."""
+    from worlds.c05 import parse_frames
+    from worlds.c18 import quiet_io
+    g = np.random.default_rng(kw["seed"])
+    with quiet_io():
+        frames = parse_frames(kw["nl"], op["meta"]["N"])
+    with open(kw["path"], "w", encoding="utf-8") as out:
+        for _head, rows in frames:
+            out.write("id   cn   bondweights\n")
+            for pid, cn, _items in rows:
+                out.write("%d %d " % (pid, cn) + " ".join("%.6f" % x for x in g.uniform(0.2, 2.0, size=cn)) + "\n")
+    return None
+
+
+def _stub_weights_outputs(w, op):
+    a, m = op["args"], op["meta"]
+    try:
+        lo, hi, nfr = nl_meta(a["path"], m["N"])
+    except (ValueError, FileNotFoundError, IndexError):
+        return []
+    return [(a["path"], {"kind": "weights", "of": a["nl"], "of_src": m["of_src"], "snaps": m["snaps"], "mincn": lo, "maxcn": hi,
+                         "frames": nfr, "N": m["N"]})]
+
+
+Adapter("stub.mk_weights", "neighbors", "neighbors.read_neighbors.read_neighbors#stub-weights-peer", covers=[], gen=_gen_stub_weights,
+        call=_call_stub_weights, outputs=_stub_weights_outputs, faultable=False, weight=1.2)
+
+
 def _freud_ok(t):
     return t["cell"] == "ortho" and t["allper"] and t["N"] >= 7 and t.get("coord", "x") == "x"
 
